@@ -1068,3 +1068,24 @@ pub fn shape_root_nth(k: usize, idx: usize) -> (String, Program) {
     prog.root = body;
     (name, prog)
 }
+
+/// single programs for defects that are known and cannot be repaired without editing an existing test
+pub fn quirk_count() -> usize {
+    1
+}
+pub fn quirk_nth(_i: usize) -> (String, Program) {
+    let (_, mut prog) = seg_nth(0, 1, 0);
+    // W2 again: the closing quote of the end text is not part of the offered text
+    prog.knots[0].body = vec![
+        Stmt::line("Start."),
+        Stmt::Weave(Weave {
+            choices: vec![
+                Choice { sticky: false, label: None, conds: vec![], start: vec![t("'Hi")], only: vec![t("!")], end: vec![t("' she said")], fallback: false, body: vec![] },
+                Choice { sticky: true, label: None, conds: vec![], start: vec![t("plain")], only: vec![], end: vec![], fallback: false, body: vec![] },
+            ],
+            gather: Some(Gather { label: None, parts: vec![t("Done.")] }),
+        }),
+        Stmt::Divert(Target::Knot("fin".into())),
+    ];
+    ("quirk-quote-after-bracket".into(), prog)
+}
